@@ -1,6 +1,7 @@
 package rules
 
 import (
+	"sort"
 	"fmt"
 	"go/token"
 	"go/types"
@@ -270,6 +271,47 @@ func c15(r *engine.Report, p *engine.Program) {
 		})
 		r.Check("R6-should-verify", "ShouldVerifySignature: verifying type yields true", svs.Pos(), falseRet == nil,
 			"false is returned only for an unregistered type or one whose verifySignature is false", "a registered verifying work type can be reported as not verifying")
+	}
+	// the policy lookup and the worker lookup resolve a name to the same registry entry: every
+	// access to Workceptor.workTypes uses its key through the same normalisation (today: none)
+	if wt := p.Field("workceptor", "Workceptor", "workTypes"); wt != nil {
+		norm := map[string][]string{}
+		for _, a := range p.FieldAccesses(wt) {
+			if engine.IsMock(a.Fn) {
+				continue
+			}
+			var key ssa.Value
+			switch x := a.Instr.(type) {
+			case *ssa.Lookup:
+				if _, isMap := x.X.Type().Underlying().(*types.Map); isMap {
+					key = x.Index
+				}
+			case *ssa.MapUpdate:
+				key = x.Key
+			case ssa.CallInstruction:
+				if b, isB := x.Common().Value.(*ssa.Builtin); isB && b.Name() == "delete" {
+					key = x.Common().Args[1]
+				}
+			}
+			if key == nil {
+				continue
+			}
+			n := "as given"
+			if c, isC := engine.Unwrap(key).(*ssa.Call); isC {
+				if o := engine.CalleeObj(c.Common()); o != nil {
+					n = "through " + o.Name()
+				}
+			}
+			norm[n] = append(norm[n], engine.FuncName(a.Fn))
+		}
+		var kinds []string
+		for k := range norm {
+			kinds = append(kinds, k)
+		}
+		sort.Strings(kinds)
+		r.Check("R6-should-verify", "Workceptor.workTypes: one key normalisation at every access", token.NoPos, len(kinds) == 1,
+			fmt.Sprintf("every lookup/insert uses the work type name %s: the type ShouldVerifySignature judges is the type AllocateUnit instantiates", strings.Join(kinds, ", ")),
+			fmt.Sprintf("the registry is keyed inconsistently %v: a name that differs from the configured verifying type only in spelling is judged 'no verification needed' by one lookup and resolved to the verifying worker by the other", norm))
 	}
 }
 
